@@ -223,6 +223,11 @@ func runC15(c *Ctx) {
 		c.Ob("C15-D2", "sio.Manager.onClose/reconnects", oc.Pos(), okr, "a lost connection must start reconnecting unless reconnection is disabled or was stopped on purpose")
 	}
 
+	c.Rule("C15-D5", "the ack-timeout purge of the offline buffer removes only the frames of that emit: every non-false return of the slices.DeleteFunc predicate in registerAckHandler's timeout path is under a presence "+
+		"test of the item's ack id (nil test of the pointer, or a flag) and under equality with this ack's id, and sendBufferItem can represent 'no ack' — ack ids start at 0, so a value-typed id makes every "+
+		"ack-less buffered event look like the first ack's frames", 2)
+	ackPurgeOnlyOwnFrames(c, "C15-D5")
+
 	c.Rule("C15-D4", "a new outage starts a new back-off cycle, and volatile means volatile everywhere: Manager.onClose resets the attempt counter on every path — whatever the reason and whether or not it starts a reconnect "+
 		"(a counter left non-zero by an interrupted cycle makes the next failed Open look like a retry that must not be retried) —, and a volatile emit never enters the retry queue (it would be delivered after the reconnect)", 3)
 	{
